@@ -1,6 +1,7 @@
 package render
 
 import (
+	"bufio"
 	"context"
 	"errors"
 	"fmt"
@@ -295,6 +296,34 @@ func c10World(rc *kernel.RunCtx) {
 				break
 			}
 		}
+	}
+	// a caller-owned *bufio.Writer that outlives several renders, with renders elsewhere in between
+	for _, size := range []int{4096, 8192, 64} {
+		if rc.Failed() {
+			break
+		}
+		cw := &core{}
+		bw := bufio.NewWriterSize(plainW{cw}, size)
+		var want []byte
+		for i := 0; i < 3 && !rc.Failed(); i++ {
+			j := (i + evals) % len(specs)
+			if err := newEnv(u).Build(specs[j]).Render(context.Background(), bw); err != nil {
+				rc.Fail("C10/later-render-error", "render %d of %s into a caller-owned bufio.Writer (size %d): %v", i, specs[j], size, err)
+				break
+			}
+			want = append(want, docs[j]...)
+			if !after("render into a caller-owned bufio.Writer") {
+				break
+			}
+		}
+		if rc.Failed() {
+			break
+		}
+		if err := bw.Flush(); err != nil || string(cw.got) != string(want) {
+			rc.Fail("C10/caller-owned-writer-lost-output", "three renders into one caller-owned bufio.Writer (size %d, render buffer %d) with other renders in between: after Flush (err=%v) the writer holds %d bytes, want %d: %q", size, kn.BufSize, err, len(cw.got), len(want), kernel.Short(string(cw.got), 200))
+		}
+		evals += 3
+		k.Count("probe_caller_owned_bufio_writer_sequences", 1)
 	}
 	k.Count("evaluations", int64(evals))
 	k.Count("fault_points", int64(fired))
